@@ -761,38 +761,60 @@ pub(crate) mod b {
         let alphabet = ['\u{301}', '\u{200d}', '\u{fe0f}', '\0', '\t', '\r', '\u{c}', '\u{7f}', '\u{ffff}', '😀', '一', '"', '\\', '{', '}', '#',
             '=', '-', '|', '+', '*', 'a', ' ', '\n', '⤹', '>', '.', '\'', ':', '_', '/'];
         let mut inputs: Vec<String> = words(&alphabet, if thorough() { 4 } else { 3 });
-        for extra in ["# Legend:", "# Legend:\n", "# Legend:\na = {", "# Legend:\na = }\n", "x\n# Legend:\n= {}", "\"\\", "\"\\\"", "{a", "a}", "⤹>-+-+-+-+-\n   | | | |\n"] {
+        for extra in ["# Legend:", "# Legend:\n", "x\n# Legend:  \n\n   \n", "# Legend:\na = {", "# Legend:\na = }\n", "x\n# Legend:\n= {}", "\"\\", "\"\\\"", "{a", "a}", "⤹>-+-+-+-+-\n   | | | |\n"] {
             inputs.push(extra.to_string());
         }
         for file in ["merge.bob", "simple.bob", "circuits.bob"] {
             let path = format!("{}/test_data/{}", env!("CARGO_MANIFEST_DIR"), file);
             inputs.push(std::fs::read_to_string(&path).expect("bundled diagram"));
         }
-        let mut n = 0u64;
+        // the conversions run on a worker thread; the test thread is the watchdog: "never hangs" is part of C01
+        let total = inputs.len();
+        let shared = std::sync::Arc::new(inputs);
+        let worker_inputs = shared.clone();
+        let (tx, rx) = std::sync::mpsc::channel::<(usize, bool)>();
         std::panic::set_hook(Box::new(|_| {}));
-        for (k, text) in inputs.iter().enumerate() {
-            let all = text.chars().count() <= 2 || k + 16 > inputs.len();
-            let r = std::panic::catch_unwind(|| {
-                let mut len = crate::to_svg_string_compressed(text).len();
-                if all {
-                    len += crate::to_svg(text).len() + crate::to_svg_string_pretty(text).len();
-                    for scale in [0.001f32, 8.0, 1.0e6] {
-                        let st = Settings { scale, ..Settings::default() };
-                        len += crate::to_svg_with_settings(text, &st).len();
-                        len += crate::to_svg_with_override_size(text, &st, 3.0, 7.5).len();
+        std::thread::spawn(move || {
+            for (k, text) in worker_inputs.iter().enumerate() {
+                let all = text.chars().count() <= 2 || k + 16 > worker_inputs.len();
+                let r = std::panic::catch_unwind(|| {
+                    let mut len = crate::to_svg_string_compressed(text).len();
+                    if all {
+                        len += crate::to_svg(text).len() + crate::to_svg_string_pretty(text).len();
+                        for scale in [0.001f32, 8.0, 1.0e6] {
+                            let st = Settings { scale, ..Settings::default() };
+                            len += crate::to_svg_with_settings(text, &st).len();
+                            len += crate::to_svg_with_override_size(text, &st, 3.0, 7.5).len();
+                        }
                     }
-                }
-                len
-            });
-            match r {
-                Ok(len) if len > 0 => {}
-                _ => {
-                    let _ = std::panic::take_hook();
-                    println!("BOUNDED-WITNESS conversion of {:?} panicked or returned nothing", text.chars().take(80).collect::<String>());
-                    panic!("conversion is total");
+                    len
+                });
+                let ok = matches!(r, Ok(len) if len > 0);
+                if tx.send((k, ok)).is_err() || !ok {
+                    return;
                 }
             }
-            n += 1;
+        });
+        let mut n = 0u64;
+        let mut next = 0usize;
+        while next < total {
+            // the slowest legitimate input (a bundled diagram through five entry points) takes a few seconds
+            match rx.recv_timeout(std::time::Duration::from_secs(120)) {
+                Ok((k, true)) => {
+                    next = k + 1;
+                    n += 1;
+                }
+                Ok((k, false)) => {
+                    let _ = std::panic::take_hook();
+                    println!("BOUNDED-WITNESS conversion of {:?} panicked or returned nothing", shared[k].chars().take(80).collect::<String>());
+                    panic!("conversion is total");
+                }
+                Err(_) => {
+                    let _ = std::panic::take_hook();
+                    println!("BOUNDED-WITNESS conversion of {:?} did not return within 120 s", shared[next].chars().take(80).collect::<String>());
+                    panic!("conversion terminates");
+                }
+            }
         }
         let _ = std::panic::take_hook();
         println!("BOUNDED-CASES {}", n);
